@@ -179,6 +179,14 @@ func genC08(r *Rng, tier string, emit func(Case)) {
 		}
 		full := symsToString(specEncode5(pre, p5)) // k + 8 symbols with valid checksum
 		e("cdec", "valid"+itoa(k), hs(pre+":"+full))
+		e("ccdec", "valid"+itoa(k), hs(pre+":"+full))
+		e("dec", "valid"+itoa(k), itoa(r.Intn(len(nets))), hs(pre+":"+full))
+		if i%3 == 0 { // the same degenerate payloads under a real network prefix, qualified and unqualified
+			np := nets[r.Intn(len(nets))]
+			f2 := symsToString(specEncode5(np.CashAddressPrefix, p5))
+			e("dec", "netvalid"+itoa(k), itoa(r.Intn(len(nets))), hs(np.CashAddressPrefix+":"+f2))
+			e("dec", "netvalid"+itoa(k), itoa(r.Intn(len(nets))), hs(f2))
+		}
 		// solve for strings whose TOTAL symbol count is below 8 with a valid checksum: brute force 3 free symbols
 		if i%20 == 0 {
 			for tries := 0; tries < 200000; tries++ {
